@@ -132,7 +132,7 @@ def run(ctx, rep):
     if ok:
         st = A.enclosing(ga[0], ast.stmt)
         tgt = st.targets[0].id if isinstance(st, ast.Assign) and isinstance(st.targets[0], ast.Name) else None
-        ok2 = tgt is not None and A.src(ca[0].args[0]) == tgt
+        ok2 = (tgt is not None and A.src(ca[0].args[0]) == tgt) or ca[0].args[0] is ga[0]
         rep.ob("R01.2", "_handle_callattr: what is called is the attribute the policy returned", ok2,
                "the first operand of _handle_call is the result of _handle_getattr" if ok2 else
                "_handle_call receives `%s`, not the attribute obtained through the policy" % A.src(ca[0].args[0]), fa.loc)
